@@ -333,3 +333,120 @@ Example c05_source_advance_nonvacuous :
   snd (advance 2 TieCheck.ex_fr TieCheck.ex_bm 5 (Tie.stable_choice 2 5 TieCheck.ex_fr TieCheck.ex_bm))
     = ([1; 0; 0; 1; 0], [true; false; true; false; false]).
 Proof. exact TieCheck.ex_nonvacuous_src. Qed.
+
+(* ================================================================================================
+   SECOND SOURCE TIE (tensor code): the loop body and the epilogue of `CTCPrefixSearch.forward`.
+   PV.Gen.C05BSrc.fwd_frame / fwd_final are the MiniPy terms harness/py2coq/translate.py regenerates on every run from
+   the marked statement blocks of forward (src/pydrobert/torch/_decoding.py): the body of `for t in range(len_max):`
+   (lens masking, LM fusion, the call of ctc_prefix_search_advance, the re-ordering of the LM state by next_src /
+   next_is_nonext, the masked update of the carried variables) and the epilogue (final mass = non-blank + blank,
+   the fill to `width` when no frame was processed, the return).  They are interpreted with SrcRunB.extB: the torch
+   calls of SrcRun.ext05 plus MiniTorch.OpsC05B; the call of the step function RUNS THE TRANSLATED SOURCE of
+   ctc_prefix_search_advance (first tie); the language model is the state machine of C05.ModelB (state = inputs fed,
+   rows = an oracle that contains the transcendental, as Model's [lm]).  ONE batch element (N = 1), as the model.
+   ================================================================================================ *)
+From PV Require MiniTorch.OpsC05B Gen.C05BSrc C05.ModelB C05.SrcRunB.
+From PV Require C05.TieBRun C05.TieB C05.TieBFrame C05.TieBSearch.
+
+(* below the model, for EVERY topk oracle, EVERY language-model oracle, every module configuration (lm or none, beta,
+   valid_mixture, width), any batch size and ALL tensors (any shapes, any data): the interpreted loop body and the
+   straight-line program TieBRun.frame_prog (operations of MiniTorch.OpsC05 / OpsC05B, the LM state machine, ONE call of
+   the interpreted step function) leave the same carried variables, outside the modelled domain together *)
+Theorem c05_source_frame_is_tensor_program :
+  forall (sel : nat -> list mass -> nat -> list nat) (lmS : list nat -> list Qc) (beta : Q)
+         (sos Vv : nat) (has_lm vm : bool) (width N V Kp : nat) (t len_min : Z) (lens : OpsC05.tn Z)
+         (nonext_probs blank_probs : OpsC05.tn mass) (pad_y : OpsC05.tn Z) (nb b : OpsC05.tn mass)
+         (y last ylens : OpsC05.tn Z) (isp : OpsC05.tn bool) (St : list (list nat)) (pv : Syntax.val),
+  let c := TieBRun.mkCarT (Z.of_nat Kp) nb b y last ylens isp
+             (if TieBRun.fused beta has_lm then SrcRunB.enc_lms St else pv) in
+  TieBRun.simF
+    (Interp.run (SrcRunB.extB sel lmS beta sos Vv) C05BSrc.fwd_frame
+       (SrcRunB.frame_vars (SrcRunB.self_val has_lm beta vm width) (Syntax.VInt (Z.of_nat N))
+          (Syntax.VInt (Z.of_nat V)) t len_min (SrcRun.enc_i lens) (SrcRun.enc_f nonext_probs)
+          (SrcRun.enc_f blank_probs) (SrcRun.enc_i pad_y) (TieBRun.enc_carT c)))
+    (TieBRun.frame_prog sel lmS beta sos Vv has_lm vm width N V t len_min lens nonext_probs blank_probs pad_y c St).
+Proof. exact TieBRun.frame_is_prog. Qed.
+Print Assumptions c05_source_frame_is_tensor_program.
+
+(* the same for the epilogue *)
+Theorem c05_source_final_is_tensor_program :
+  forall (sel : nat -> list mass -> nat -> list nat) (lmS : list nat -> list Qc) (beta : Q)
+         (sos Vv : nat) (has_lm vm : bool) (width N Kp : nat) (nb b : OpsC05.tn mass) (y ylens last : OpsC05.tn Z)
+         (isp : OpsC05.tn bool) (pv : Syntax.val),
+  let c := TieBRun.mkCarT (Z.of_nat Kp) nb b y last ylens isp pv in
+  TieBRun.simR
+    (Interp.run (SrcRunB.extB sel lmS beta sos Vv) C05BSrc.fwd_final
+       (SrcRunB.final_vars (SrcRunB.self_val has_lm beta vm width) (Syntax.VInt (Z.of_nat N)) (TieBRun.enc_carT c)))
+    (TieBRun.final_prog width N c).
+Proof. exact TieBRun.final_is_prog. Qed.
+Print Assumptions c05_source_final_is_tensor_program.
+
+(* the interpreted epilogue, on the carried variables that encode ANY well-formed beam, returns the three tensors that
+   encode the tail of Model.search (TieB.epilogue: mass = non-blank + blank, the fill to `width` when only the initial
+   slot exists; Model.search = epilogue of the loop's last beam by definition) - every width, every configuration *)
+Theorem c05_source_final_is_model :
+  forall (V width : nat) (has_lm : bool) (beta : Q) (vm : bool) (lmS : list nat -> list Qc) (bm : beam) (pv : Syntax.val),
+  1 <= width -> wf bm ->
+  exists st, SrcRunB.run_final V width has_lm beta vm lmS (SrcRunB.enc_car bm pv)
+             = Interp.Ok (TieB.enc_result (b_t bm) (TieB.epilogue width bm)) st.
+Proof. exact TieB.final_tie. Qed.
+Print Assumptions c05_source_final_is_model.
+
+(* ONE interpreted iteration of `for t in range(len_max):` for a module that fuses no language model (`self.lm is None
+   or not self.beta`), on the carried variables that encode a well-formed beam of 1 or `width` slots: the carried
+   variables afterwards encode Model.sstep's beam - plain path (t < len_min), masked path of a running element, frozen
+   element (len <= t), the first widening included; the step function inside is its own interpreted source.
+   Hypotheses: ProofsModel.wf; the topk answer has K in-range entries (what a topk answer is); len_min <= len (what
+   `lens.min()` is).  The FUSED configurations are tied to the tensor program only (theorem above). *)
+Theorem c05_source_frame_is_model_nolm :
+  forall (V width : nat) (has_lm : bool) (beta : Q) (vm : bool) (lmS lm : list nat -> list Qc)
+         (len_min len : nat) (fs : list (list Qc * Qc)) (t : nat) (bm : beam) (choice : list nat) (pv : Syntax.val),
+  TieBRun.fused beta has_lm = false -> 1 <= V -> 1 <= width -> wf bm -> Kp bm = 1 \/ Kp bm = width ->
+  length choice = Kout V bm width -> (forall i : nat, In i choice -> i < ncand V bm) ->
+  t < length fs -> len_min <= len ->
+  SrcRunB.src_frame V width has_lm beta vm lmS len_min len fs choice t (SrcRunB.enc_car bm pv)
+  = Some (SrcRunB.enc_car
+            (sstep V width NoLM lm (len <=? t) (fst (nth t fs ([], Q2Qc 0))) (snd (nth t fs ([], Q2Qc 0))) choice bm) pv).
+Proof. exact TieBFrame.frame_tie_nolm. Qed.
+Print Assumptions c05_source_frame_is_model_nolm.
+
+(* the whole search without a fused LM, as far as forward is translated (_partial: the initial carried variables =
+   Model.init_beam and the iteration of the body, SrcRunB.src_frames, are HAND-WRITTEN glue; the head of forward - argument
+   checks, lens / len_min / len_max, softmax and its two slices - is not translated): interpreted frames + interpreted
+   epilogue return the tensors that encode Model.search's answer *)
+Theorem c05_source_search_is_model_nolm_partial :
+  forall (V width : nat) (has_lm : bool) (beta : Q) (vm : bool) (lmS lm : list nat -> list Qc)
+         (len_min len : nat) (fs : list (list Qc * Qc)) (choices : list (list nat)),
+  TieBRun.fused beta has_lm = false -> 1 <= V -> 1 <= width -> len_min <= len ->
+  ModelB.choices_wf V width NoLM lm len 0 fs choices init_beam ->
+  exists (c : SrcRunB.carried) (st : Interp.state),
+    SrcRunB.src_frames V width has_lm beta vm lmS len_min len fs (length fs) 0 choices (SrcRunB.init_car has_lm) = Some c /\
+    SrcRunB.run_final V width has_lm beta vm lmS c
+    = Interp.Ok (TieB.enc_result (b_t (sloop V width NoLM lm len 0 fs choices init_beam))
+                                 (search V width NoLM lm len fs choices)) st.
+Proof. exact TieBSearch.search_tie_nolm. Qed.
+Print Assumptions c05_source_search_is_model_nolm_partial.
+
+(* composed with c05_sorted_by_mass, a statement about the interpreted source alone: what it returns (legitimate topk
+   answers at the frames the element processes) has exactly `width` slots ordered by non-increasing mass *)
+Theorem c05_source_search_sorted_nolm_partial :
+  forall (V width : nat) (has_lm : bool) (beta : Q) (vm : bool) (lmS lm : list nat -> list Qc)
+         (len_min len : nat) (fs : list (list Qc * Qc)) (choices : list (list nat)),
+  TieBRun.fused beta has_lm = false -> 1 <= V -> 1 <= width -> len_min <= len ->
+  ModelB.choices_wf V width NoLM lm len 0 fs choices init_beam ->
+  choices_ok V width NoLM lm (Q2Qc 0) len 0 fs choices init_beam = true ->
+  exists (c : SrcRunB.carried) (st : Interp.state) (H : nat) (r : list (list nat) * list nat * list mass),
+    SrcRunB.src_frames V width has_lm beta vm lmS len_min len fs (length fs) 0 choices (SrcRunB.init_car has_lm) = Some c /\
+    SrcRunB.run_final V width has_lm beta vm lmS c = Interp.Ok (TieB.enc_result H r) st /\
+    (let '(P, Ls, Ps) := observe r in length P = width /\ length Ls = width /\ length Ps = width /\ sorted_desc Ps).
+Proof. exact TieBSearch.search_sorted_nolm. Qed.
+Print Assumptions c05_source_search_sorted_nolm_partial.
+
+(* non-vacuity: the frames of tests/test_decoding.py::test_ctc_prefix_search, width 2, an element of length 3 in a batch
+   whose shortest element has one frame (plain path, then masked path): the hypotheses hold and the interpreted source
+   (SrcRunB.src_search, as the harness runs it) returns Model.search's answer *)
+Example c05_source_forward_nonvacuous :
+  ModelB.choices_wf 2 2 NoLM no_lm 3 0 ex_frames (ex_choices 2 3) init_beam /\
+  choices_ok 2 2 NoLM no_lm (Q2Qc 0) 3 0 ex_frames (ex_choices 2 3) init_beam = true /\
+  SrcRunB.src_search_is_model 2 2 false (1 # 5) false no_lm 1 3 ex_frames (ex_choices 2 3) = true.
+Proof. exact TieBSearch.ex_nonvacuous_B. Qed.
